@@ -1,0 +1,14 @@
+// 版权 @2024 凹语言 作者。保留所有权利。
+
+package printer
+
+import "fmt"
+
+func (p *watPrinter) printStart() error {
+	if p.m.Start == "" {
+		return nil
+	}
+	fmt.Fprint(p.w, p.indent)
+	fmt.Fprintf(p.w, "(start %s)\n", watPrinter_identOrIndex(p.m.Start))
+	return nil
+}
